@@ -427,10 +427,36 @@ def run(repo, chk):
                 chk.expect(bool(copied) == bool(volatile), 'C01.R1', f'eval_expr[VariableLookup keep={conds.get("keep")} global={conds.get("is_global")} '
                            f'const={conds.get("expr.var.const")}]', 'a kept operand must be copied exactly when it is a mutable global '
                            '(later evaluation may assign it)', GEN)
-    tail = gf.methods['eval_expr']
-    t = src(tail)
-    chk.expect('if not keep or isinstance(result, asm.Immediate):' in t and 'return (yield from self.push_value(expr.type, result))' in t, 'C01.R1',
-               'eval_expr::keep tail', 'a kept non-immediate result is pushed to the frame', GEN)
+    # tail of eval_expr, on the paths of the scalar arms that fall through to it: a result that must be kept and is not an
+    # immediate is pushed to the frame (typed), anything else is handed out as it is
+    bad = None
+    n_tail = 0
+    for p, ev in gf.inlined('eval_expr'):
+        if p.outcome == 'raise':
+            continue
+        conds = _efg.Conds(ev)
+        keep, imm = conds.get('keep'), conds.get('isinstance(result, asm.Immediate)')
+        rets = [e for e in ev if e.kind == 'return' and not e.origin]
+        if not rets or keep is None:
+            continue
+        if keep is True and imm is None:
+            # a kept result leaves the tail without the immediate-or-not decision: it must then be pushed unconditionally
+            pushes0 = [e for e in ev if e.kind == 'sub' and e.func == 'self.push_value']
+            direct = [e for e in ev if e.kind == 'return' and not e.origin and isinstance(e.value, (ast.YieldFrom, ast.Call))
+                      and 'self.vacpack(result)' in src(e.value)]
+            if direct and not pushes0:
+                bad = 'a result that must be kept is handed out without deciding whether it is an immediate (only immediates survive later evaluation)'
+            continue
+        last = rets[-1]
+        pushes = [e for e in ev if e.kind == 'sub' and e.func == 'self.push_value' and [src(a) for a in e.args] == ['expr.type', 'result']]
+        is_push_ret = isinstance(last.value, ast.YieldFrom) and isinstance(last.value.value, ast.Call) and src(last.value.value.func) == 'self.push_value'
+        n_tail += 1
+        if keep is True and imm is False:
+            if not (pushes and is_push_ret):
+                bad = f'keep and not an immediate: returns `{src(last.value)[:60]}` instead of pushing the result'
+        elif (keep is False or imm is True) and is_push_ret and pushes:
+            bad = f'keep={keep}, immediate={imm}: the result is pushed although it need not be kept'
+    chk.expect(bad is None and n_tail > 0, 'C01.R1', 'eval_expr::keep tail', bad or f'{n_tail} paths: a kept non-immediate result is pushed to the frame', GEN)
 
     _word_cells(repo, chk, gf)
     # side effects of every operand survive the typechecker (shared with C14.F7)
@@ -550,11 +576,58 @@ def run(repo, chk):
     chk.expect(0 <= i_code and i_f == i_code + 1 < i_g < i_lib, 'C01.A1', 'gen_lines::code section order',
                'generated functions, in the order of func_table (entry function first), directly follow `%section code` and precede '
                f'the library routines: {lay[max(i_code, 0):max(i_code, 0) + 6]}', GEN)
-    mfn = src(gf.methods['make_funcs'])
-    chk.expect('self.func_table[csig] = list(self.gen_func(csig, decl))' in mfn.replace('\n', ' ').replace('  ', '') or
-               ('self.func_table[csig] = list(' in mfn and 'self.gen_func(csig, decl)' in mfn), 'C01.A1', 'make_funcs',
-               'bodies are stored in generation order', GEN)
+    function_queue(repo, chk, gf)
     chk.not_decided = ['the output bytes of any particular program; wrap-around, truncation and the VM\'s arithmetic (see C09)']
+
+
+def function_queue(repo, chk, gf, rule='C01.A1'):
+    """label_for_func + make_funcs, interpreted with body generation stubbed: every requested specialisation is generated
+    exactly once, bodies are stored in the order of first request (so the entry point, requested first, is the first body
+    of the code section), and requests made while a body is generated are served too."""
+    ns = gf.module_ns()
+    CG, A, DT = ns['CodeGen'], ns['ast'], ns['DataType']
+    CS = ns['ConcreteSignature']
+    import collections
+
+    class _O:
+        pass
+    bad = None
+    try:
+        g = object.__new__(CG)
+        g.func_labels, g.func_queue, g.func_table, g.numbered_labels = {}, collections.deque(), {}, {}
+        g.env = _O()
+        sigs = [CS(A.Ident.you('is_you'), ()), CS(A.Ident('f'), (DT.INT,)), CS(A.Ident('g'), ()), CS(A.Ident('f'), (DT.BYTE,))]
+        late = CS(A.Ident('late'), ())
+        decls = {}
+        g.env.funcs = {}
+        for s_ in sigs + [late]:
+            d = _O()
+            d.__class__ = type('FuncDeclaration', (A.FuncDeclaration,), {'__init__': lambda self: None}) if False else d.__class__
+            g.env.funcs.setdefault(s_.name, {})[s_.abstract_params] = A.FuncDeclaration.__new__(A.FuncDeclaration)
+        order = []
+
+        def fake_gen_func(csig, decl):
+            order.append(csig)
+            if csig == sigs[1]:
+                g.label_for_func(late)          # a call discovered while generating f(int)
+                g.label_for_func(sigs[2])       # already requested: must not be queued twice
+            return iter([('body of', csig)])
+        g.gen_func = fake_gen_func
+        labels = [g.label_for_func(s_) for s_ in sigs]
+        again = g.label_for_func(sigs[1])
+        g.make_funcs()
+        want = sigs + [late]
+        if order != want or list(g.func_table) != want:
+            bad = f'generated in order {[str(s_.name) for s_ in order]}, stored {[str(s_.name) for s_ in g.func_table]}; expected first-request order'
+        elif again is not labels[1] and again != labels[1]:
+            bad = 'a repeated request returns a different label'
+        elif any(list(v) != [('body of', k)] for k, v in g.func_table.items()):
+            bad = 'a stored body is not the list of what gen_func produced'
+        elif g.func_queue:
+            bad = 'requests left in the queue'
+    except Exception as e:      # noqa: BLE001
+        bad = f'{type(e).__name__}: {e}'
+    chk.expect(bad is None, rule, 'label_for_func / make_funcs', bad or 'each specialisation generated once, bodies stored in first-request order', GEN)
 
 
 def entry_binding(repo, chk, gf, rule='C01.A1'):
